@@ -285,6 +285,12 @@ class C09(PropertyCheck):
         _, self.ctor = tgc.regenerate((chain, classes, class_map))
         return ["GateDefs.lean", "GateDefsF.lean", "GateExtra.lean", "GatePaths.lean", "GateCtor.lean"]
 
+    def finding_matches(self, witness, finding):
+        fw = finding.get("witness") or {}
+        if witness.get("kind") == "seq" and fw.get("kind") == "seq":
+            return witness.get("container") in ("tuple", "array", "range") and fw.get("container") in ("tuple", "array", "range")
+        return super().finding_matches(witness, finding)
+
     def _ctor(self):
         d = getattr(self, "ctor", None)
         if d is None:
@@ -570,6 +576,8 @@ class C09(PropertyCheck):
             return cc.oracle_hist(w)
         if w["kind"] == "fresh":
             return cc.oracle_fresh_gate(w)
+        if w["kind"] == "seq":
+            return cc.oracle_seq(w)
         if w["kind"] == "ctrl-malformed":
             return False, "malformed request to controlled_gate (outside the property); only the refusal kind is compared"
         return False, "unknown witness"
@@ -611,6 +619,18 @@ class C09(PropertyCheck):
                 yield w, det
         for w in cc.fresh_gate_requests():
             f, det = cc.oracle_fresh_gate(w)
+            if f:
+                yield w, det
+        # qubits in other containers than int / list: numpy integers always; tuple / ndarray / range only on a tree whose
+        # Gate.__init__ turns every sequence into a list (regenerated flag Gen.G.gateInitQubits = "list-copy", fix C09-5) — on
+        # the "as-given" source these requests are outside the constructor model (QArg: integer | list) and recorded as the
+        # proposed finding class `sequence-qubits`
+        try:
+            variant = self._ctor().get("qubits", "list-copy")
+        except Exception:
+            variant = "list-copy"
+        for w in cc.seq_requests(("npint",) if variant == "as-given" else ("tuple", "array", "npint", "range")):
+            f, det = cc.oracle_seq(w)
             if f:
                 yield w, det
 
